@@ -220,7 +220,8 @@ def build_q(case):
                         run(s[2][1])
                 elif s[0] == "sub":
                     if s[1] is None:
-                        with Q.subcircuit():
+                        # no count: either form
+                        with (Q.subcircuit() if len(s[2]) % 2 else Q.subcircuit(None)):
                             run(s[2])
                     else:
                         with Q.subcircuit(val(s[1])):
